@@ -214,6 +214,12 @@ def mk_provider(net: Net, mdib_file='mdib_tns.xml', mode='sync', chunk_size=0, m
     srv.supported_encodings = provider._compression_methods   # same wiring as the internal server gets
     provider.start_all(start_rtsample_loop=rt_loop, shared_http_server=srv)
     provider.set_location(SdcLocation(fac='fac1', poc='poc1', bed='bed1'))
+    # the example product updates the AlertSystem self-check states every few seconds from a thread of its own: stop it, the
+    # monitor attributes every MDIB change to the request it has just fed
+    for product in provider.product_lookup.values():
+        for rp in getattr(product, '_ordered_role_providers', []):
+            if type(rp).__name__ == 'AlertSystemStateMaintainer':
+                rp.stop()
     if stop_housekeeping:
         # expiry / delayed removal by the housekeeping threads would change the subscription table behind the monitor's back
         for mgr in provider._subscriptions_managers.values():
